@@ -442,6 +442,10 @@ Definition label_ok (p : purity) (ms : list string) : bool :=
   | Pure => forallb ambient ms
   | Impure => forallb read_only ms
   | Mutating => true end.
-(** operations whose label disagrees with what they call, in the code as it stands (findings):
-    &fo opens with write access, un-trace / un-dump print, the closing half of an under-open closes *)
-Definition label_exceptions : list string := ["FOpen"; "UnStack"; "UnDump"; "TryClose"]%string.
+(** RECORD (code before fix commits 1cead72, d78a439, 06086d8): the operations whose label then
+    disagreed with what they call - &fo (Impure) opens with write access, un-trace / un-dump (Impure)
+    print, the closing half of an under-open (Pure) closes.  All four are labelled Mutating now; the
+    statement about the current tables (Proofs/GateTables.v effects_respect_labels) has no exceptions. *)
+Definition label_exceptions_pre : list string := ["FOpen"; "UnStack"; "UnDump"; "TryClose"]%string.
+Definition labels_pre : list (string * purity) :=
+  [("FOpen", Impure); ("UnStack", Impure); ("UnDump", Impure); ("TryClose", Pure)]%string.
